@@ -11,7 +11,12 @@ events with 1..4 cues/outcomes incl. repeats, tables with 1..23 dimensions and
 shuffled row order, dyadic entries, all n_jobs x n_outcomes_per_job; values and
 dimension labels compared exactly; names missing from a table -> exception
 class; continuation chains (2..3 pieces, new binary-side labels) vs the single
-pass (C03 for the wh flavours).
+pass (C03 for the wh flavours); stream many_chunks: 23..38 events with
+events_per_temporary_file in {2, 3}, i.e. 11..15 chunk files, for each flavour;
+streams numpy_shapes / dict_wh_shapes: continuation with weights=, remove_duplicates
+None / False, repeated name under policy 'error', dict_wh make_data_array and
+list / generator input; stream outcome_less: events with an empty outcome field
+(the outcome named '').
 """
 import gen
 import whgen
@@ -63,10 +68,86 @@ def make_case(r, flavour, single=False, chain=False, missing=False):
     return t
 
 
+def make_many_chunks_case(r, flavour):
+    """>= 11 chunk files (audit X7): the numeric sort of the chunk file names in each of the three
+    wh flavours (wh.py: 'sort binary files as they were created') only matters from events_0_10.dat on.
+    Small tables / small eta keep 23..38 events contractive (tolerance domain stays meaningful)."""
+    per_file = r.choice([2, 3])
+    n = r.randint(23, 30) if per_file == 2 else r.randint(31, 38)
+    es = wh_events(r, n, max_c=2, max_o=2, dup=0.2)
+    has_dup = gen.has_dup(es)
+    t = {'op': 'wh', 'flavour': flavour, 'events': es, 'eta': r.choice(['1/16', '1/32']),
+         'policy': r.choice(['dedup', 'keep']) if has_dup else r.choice(['error', 'dedup', 'keep']),
+         'n_jobs': r.choice([1, 2, 3, 8]), 'per_job': r.choice([1, 2, 3, 10]), 'per_file': per_file}
+    if flavour in ('r2r', 'r2b'):
+        t['cue_vectors'] = whgen.table(r, CUES, r.choice([1, 2, 3]), prefix='cd', small=True)
+    if flavour in ('r2r', 'b2r'):
+        t['outcome_vectors'] = whgen.table(r, OUTS, r.choice([1, 2, 3]), prefix='od', small=True)
+    return t
+
+
+# duplicate policies the numpy / dict_wh shapes draw from (remove_duplicates None / False)
+SHAPE_POLICIES = ['error', 'keep']
+
+
+def make_shape_case(r, method, repeat_side=None):
+    """method='numpy' and dict_wh in the shapes their signatures allow (wh.py:158-160, 842-879), on single-cue /
+    single-outcome events (both assert exactly one cue and one outcome per event): continuation with `weights=`
+    (2..3 calls), remove_duplicates None / False, a repeated name under policy 'error' (ValueError expected),
+    dict_wh: make_data_array (last call), events as path / list / generator.  Compared with whModel (r2r)."""
+    t = make_case(r, 'r2r', single=True)
+    t['method'] = method
+    t['policy'] = r.choice(SHAPE_POLICIES)
+    es = t['events']
+    if repeat_side is not None:
+        # a repeated name in one event (cue side 0 / outcome side 1): 'error' -> ValueError, 'dedup' -> the single
+        # name; under 'keep' it would be two cues, which both methods reject by assertion (outside the property)
+        t['policy'] = r.choice([p for p in SHAPE_POLICIES if p != 'keep'])
+        k = r.randrange(len(es))
+        es[k][repeat_side] = es[k][repeat_side] * 2
+        t['repeat'] = ['cue', 'outcome'][repeat_side]
+    n = len(es)
+    n_pieces = r.choice([1, 2, 3])
+    if n_pieces > 1 and n >= 2:
+        cuts = sorted(r.sample(range(1, n), min(n_pieces - 1, n - 1)))
+        t['pieces'] = [es[a:b] for a, b in zip([0] + cuts, cuts + [n])]
+    if method == 'dict_wh':
+        t['make_data_array'] = r.random() < 0.5
+        t['events_form'] = r.choice(['path', 'list', 'generator'])
+    return t
+
+
+def make_outcome_less_case(r, flavour):
+    """events without outcomes: the text format turns the empty field into the outcome named '' -- an ordinary
+    binary outcome for r2b; for r2r / b2r an ordinary table row (half of the cases) or a missing vector"""
+    t = make_case(r, flavour)
+    for e in t['events']:
+        if r.random() < 0.4:
+            e[1] = []
+    if all(e[1] for e in t['events']):
+        t['events'][r.randrange(len(t['events']))][1] = []
+    t['policy'] = r.choice(['dedup', 'keep']) if gen.has_dup(t['events']) else r.choice(['error', 'dedup', 'keep'])
+    if flavour != 'r2b':
+        t['empty_name_in_table'] = r.random() < 0.5
+        if t['empty_name_in_table']:
+            t['outcome_vectors'] = whgen.table(r, OUTS + [''], len(t['outcome_vectors']['dims']), prefix='od')
+    return t
+
+
+def _evaluate(pool, driver, t):
+    impl = pool.map([t])[0]
+    model = driver.ask([whgen.model_request(t)])[0]
+    return whgen.compare(impl, model), impl, model
+
+
 def run(rep, pool, driver, tier):
     r = rng('C08')
     quick = tier == 'quick'
     tasks = []
+    r_mc = rng('C08/many_chunks')
+    for i in range(2 if quick else 20):
+        for flavour in ('r2r', 'b2r', 'r2b'):
+            tasks.append((make_many_chunks_case(r_mc, flavour), 'many_chunks'))
     for i in range(30 if quick else 350):
         for flavour in ('r2r', 'b2r', 'r2b'):
             tasks.append((make_case(r, flavour), 'openmp'))
@@ -80,6 +161,15 @@ def run(rep, pool, driver, tier):
         t2 = make_case(r, 'r2r', single=True)
         t2['policy'] = 'error'
         tasks.append((dict(t2, method='dict_wh'), 'dict_wh'))
+    r_sh = rng('C08/shapes')
+    for i in range(12 if quick else 150):
+        rs = {0: 0, 3: 1}.get(i % 6)      # every sixth case repeats a cue, every sixth an outcome
+        tasks.append((make_shape_case(r_sh, 'numpy', rs), 'numpy_shapes'))
+        tasks.append((make_shape_case(r_sh, 'dict_wh', rs), 'dict_wh_shapes'))
+    r_ol = rng('C08/outcome_less')
+    for i in range(6 if quick else 60):
+        for flavour in ('r2b', 'r2b', 'r2r', 'b2r'):
+            tasks.append((make_outcome_less_case(r_ol, flavour), 'outcome_less'))
     impls = pool.map([t for t, _ in tasks])
     models = driver.ask([whgen.model_request(t) for t, _ in tasks])
     for (t, stream), impl, model in zip(tasks, impls, models):
@@ -88,11 +178,43 @@ def run(rep, pool, driver, tier):
         rep.count('outcome:' + model.get('err', 'Returned'))
         if 'err' not in model:
             rep.count('exact_domain' if model['bits'] <= 53 else 'tolerance_domain')
-        if stream == 'missing_vector' and 'err' in model and impl.get('err') in ('Raised:Value', 'Raised:Key'):
+        if stream == 'many_chunks':
+            k = whgen.n_chunk_files(len(t['events']), t['per_file'])
+            rep.count('chunk_files:%d' % k)
+            rep.count('many_chunks_per_file:%d' % t['per_file'])
+            # would this case see a lexicographically sorted chunk list?  (model on the permuted events)
+            alt = driver.ask([whgen.model_request(dict(t, events=whgen.lexsorted_events(t['events'], t['per_file'])))])[0]
+            rep.count('many_chunks_sees_lexsort:%s:%s' % (t['flavour'], 'yes' if alt.get('cells') != model.get('cells') else 'no'))
+        if stream in ('numpy_shapes', 'dict_wh_shapes'):
+            m = t['method']
+            rep.count('%s:policy:%s' % (m, t['policy']))
+            rep.count('%s:calls:%d' % (m, len(t.get('pieces') or [0])))
+            rep.count('%s:repeated_name:%s' % (m, t.get('repeat', 'no')))
+            if m == 'dict_wh':
+                rep.count('dict_wh:make_data_array:%s' % t['make_data_array'])
+                rep.count('dict_wh:events_form:' + t['events_form'])
+                if 'err' not in impl:
+                    rep.count('dict_wh:result_type:' + str(impl.get('result_type')))
+        if stream == 'outcome_less':
+            rep.count('outcome_less:%s:%s' % (t['flavour'], 'binary' if t['flavour'] == 'r2b' else
+                                              'table_row' if t['empty_name_in_table'] else 'missing_vector'))
+        if stream == 'outcome_less' and 'err' in model and impl.get('err') == 'Raised:Value' and not t.get('empty_name_in_table', True):
+            d = None      # no vector for the outcome '': ValueError from the table check (as stream missing_vector)
+        elif stream == 'missing_vector' and 'err' in model and impl.get('err') in ('Raised:Value', 'Raised:Key'):
             d = None      # ValueError from the table check (KeyError for dict_wh): DESIGN §6 C05 table
         else:
             d = whgen.compare(impl, model)
-        if d is not None:
+        if d is not None and stream == 'many_chunks':
+            small, steps = whgen.shrink_events(t, lambda c: _evaluate(pool, driver, c)[0] is not None)
+            d2, impl2, model2 = _evaluate(pool, driver, small)
+            if d2 is None:
+                small, d2, impl2, model2 = t, d, impl, model
+            rep.violation({'what': d2, 'input': small, 'observed': impl2.get('cells', impl2.get('err')),
+                           'expected': model2.get('cells', model2.get('err')), 'python': whgen.python_snippet(small),
+                           'chunk_files': whgen.n_chunk_files(len(small['events']), small['per_file']),
+                           'shrunk_from_events': len(t['events']), 'shrink_steps': steps,
+                           'theorem_or_stream': 'C08 wh*_eq_spec: wh.wh %s (%s, >= 11 chunk files) vs Lean whModel' % (t['flavour'], stream)})
+        elif d is not None:
             rep.violation({'what': d, 'input': t, 'observed': impl.get('cells', impl.get('err')), 'expected': model.get('cells', model.get('err')),
                            'theorem_or_stream': 'C08 wh*_eq_spec: wh.wh %s (%s) vs Lean whModel' % (t['flavour'], stream)})
         elif len(t['events']) >= 2 and 'err' not in model:
